@@ -1,7 +1,7 @@
 (* C10 — A container reads the same however its packs are packaged (lookup part proved; the
    equality of whole logical dumps across packagings is checked on real containers). *)
 From Coq Require Import List NArith.
-From Jbk Require Import Base.Parser Format.Structs Container.Reader Container.Proofs.
+From Jbk Require Import Base.Parser Base.Prog Format.Structs Manifest.SetLocation Container.Reader Container.Proofs Container.Embed.
 Import ListNotations.
 
 (* packs are looked for by identity inside the file at hand first ... *)
@@ -19,5 +19,28 @@ Theorem C10_found_pack_has_the_requested_identity :
     (exists ps, fs_find loc fs = Some file /\ open_as_container file = Ok ps /\ In (uuid, (pos, size)) ps).
 Proof. exact locate_found_has_identity. Qed.
 
+(* embedded at the end of another file: for EVERY prefix X that does not itself start with a readable
+   pack header and every pack file C, the blind open of X ++ C finds exactly the packs of C, each
+   |X| bytes further *)
+Theorem C10_embedded_at_the_end_of_another_file :
+  forall X C h, pack_file C h -> no_header_at_start (X ++ C) ->
+    open_as_container (X ++ C) = res_map (map (shift_ref (lenN X))) (open_as_container C).
+Proof. exact open_embedded. Qed.
+
+(* reader programs are translation invariant: the same reads, |X| bytes further, give the same answer *)
+Theorem C10_reader_programs_are_translation_invariant :
+  forall (A B : Type) (g : A -> B) X f p p', shifted (lenN X) g p p' -> run (X ++ f) p' = res_map g (run f p).
+Proof. intros A B g X f p p'. exact (run_shifted g X f p p'). Qed.
+Theorem C10_container_pack_listing_is_translation_invariant :
+  forall k base, shifted k (map (shift_ref k)) (container_new_p base) (container_new_p (k + base)).
+Proof. exact shifted_container_new. Qed.
+Theorem C10_lookup_commutes_with_embedding :
+  forall k u ps, find_uuid u (map (shift_ref k) ps) = option_map (fun r => (k + fst r, snd r)%N) (find_uuid u ps).
+Proof. exact find_uuid_shift. Qed.
+
 Print Assumptions C10_inside_the_file_first.
+Print Assumptions C10_embedded_at_the_end_of_another_file.
+Print Assumptions C10_reader_programs_are_translation_invariant.
+Print Assumptions C10_container_pack_listing_is_translation_invariant.
+Print Assumptions C10_lookup_commutes_with_embedding.
 Print Assumptions C10_found_pack_has_the_requested_identity.
